@@ -77,9 +77,10 @@ inductive Step (reent : Bool) : List Thr → List Thr → Prop where
   | rel {pre post d r} : 0 < d →
       Step reent (pre ++ ⟨d, .rel :: r⟩ :: post) (pre ++ ⟨d - 1, r⟩ :: post)
 
-inductive Steps (reent : Bool) : List Thr → List Thr → Prop where
-  | refl {c} : Steps reent c c
-  | tail {a b c} : Steps reent a b → Step reent b c → Steps reent a c
+/-- `n` scheduler steps -/
+inductive StepsN (reent : Bool) : Nat → List Thr → List Thr → Prop where
+  | refl {c} : StepsN reent 0 c c
+  | tail {n a b c} : StepsN reent n a b → Step reent b c → StepsN reent (n + 1) a c
 
 def Final (c : List Thr) : Prop := ∀ t ∈ c, t.prog = []
 
@@ -155,30 +156,30 @@ structure Cfg where
   onToxic : Option (Item → Bool)        -- the `on_toxic` callback: `true` = returns, `false` = raises
 
 /-- Python `dict.__setitem__` on an insertion-ordered association list -/
-def dictSet (d : List (Nat × Nat)) (kv : Nat × Nat) : List (Nat × Nat) :=
+def dictSet {α : Type} (d : List (Nat × α)) (kv : Nat × α) : List (Nat × α) :=
   if d.any (fun e => e.1 == kv.1) then d.map (fun e => if e.1 == kv.1 then kv else e) else d ++ [kv]
 
-def dictUpdate (d : List (Nat × Nat)) (kvs : List (Nat × Nat)) : List (Nat × Nat) := kvs.foldl dictSet d
+def dictUpdate {α : Type} (d : List (Nat × α)) (kvs : List (Nat × α)) : List (Nat × α) := kvs.foldl dictSet d
 
 structure State where
   queue : List Item := []
   clock : Nat := 0
   digested : Nat := 0                   -- _total_digested
   recycled : Nat := 0                   -- _total_recycled
-  bin : List (Nat × Nat) := []          -- _recycling_bin: key ↦ ghost seq of the item it was extracted from
+  bin : List (Nat × Item) := []         -- _recycling_bin: key ↦ (ghost) the item it was extracted from
   dead : Bool := false                  -- a call hung; the object is abandoned
   -- observation accumulators
-  toxicLog : List Nat := []             -- seqs handed to `on_toxic`, in call order
+  toxicLog : List Item := []            -- items handed to `on_toxic`, in call order
   reported : Nat := 0                   -- Σ len(DigestResult.errors) returned by digest() calls
   autoLogged : Nat := 0                 -- warnings logged by _auto_digest
   emLogged : Nat := 0                   -- warnings logged by _emergency_digest
   expiredRet : Nat := 0                 -- Σ autophagy() return values
   -- ghost
   items : List Item := []               -- everything ever ingested, in order (`_total_ingested` = its length)
-  gDigested : List Nat := []
-  gErrored : List Nat := []
-  gEmDropped : List Nat := []
-  gExpired : List Nat := []
+  gDigested : List Item := []           -- counted in _total_digested
+  gErrored : List Item := []            -- digester raised: reported in a DigestResult or logged by _auto_digest
+  gEmDropped : List Item := []          -- digester raised during the emergency digest: logged there
+  gExpired : List Item := []            -- removed by autophagy
 
 def State.ingested (s : State) : Nat := s.items.length
 
@@ -213,7 +214,7 @@ def sliceCount (len : Nat) : Option Int → Nat
 structure DigestRes where
   disposed : Nat
   errors : Nat
-  recycledKeys : List (Nat × Nat)
+  recycledKeys : List (Nat × Item)
 
 /-- The body of `digest` for the first `n` queued items: pop them under the lock, run the digesters, update counters
     and the bin.  `viaAuto` says who sees the errors: the caller (`reported`) or the log (`autoLogged`). -/
@@ -221,21 +222,21 @@ def digestCore (cfg : Cfg) (s : State) (n : Nat) (viaAuto : Bool) : State × Dig
   let items := s.queue.take n
   let oks := items.filter (succeeds cfg)
   let errs := items.filter (fun it => !succeeds cfg it)
-  let recy := dictUpdate [] (oks.flatMap fun it => (keysOf cfg it).map fun k => (k, it.seq))
+  let recy := dictUpdate [] (oks.flatMap fun it => (keysOf cfg it).map fun k => (k, it))
   ({ queue := s.queue.drop n
      clock := s.clock
      digested := s.digested + oks.length
      recycled := s.recycled + (oks.filter fun it => !(keysOf cfg it).isEmpty).length
      bin := dictUpdate s.bin recy
      dead := s.dead
-     toxicLog := s.toxicLog ++ (items.filter (callsToxic cfg)).map (·.seq)
+     toxicLog := s.toxicLog ++ items.filter (callsToxic cfg)
      reported := if viaAuto then s.reported else s.reported + errs.length
      autoLogged := if viaAuto then s.autoLogged + errs.length else s.autoLogged
      emLogged := s.emLogged
      expiredRet := s.expiredRet
      items := s.items
-     gDigested := s.gDigested ++ oks.map (·.seq)
-     gErrored := s.gErrored ++ errs.map (·.seq)
+     gDigested := s.gDigested ++ oks
+     gErrored := s.gErrored ++ errs
      gEmDropped := s.gEmDropped
      gExpired := s.gExpired },
    ⟨oks.length, errs.length, recy⟩)
@@ -254,15 +255,15 @@ def emergency (cfg : Cfg) (s : State) : State :=
       recycled := s.recycled
       bin := s.bin
       dead := s.dead
-      toxicLog := s.toxicLog ++ (items.filter (callsToxic cfg)).map (·.seq)
+      toxicLog := s.toxicLog ++ items.filter (callsToxic cfg)
       reported := s.reported
       autoLogged := s.autoLogged
       emLogged := s.emLogged + errs.length
       expiredRet := s.expiredRet
       items := s.items
-      gDigested := s.gDigested ++ oks.map (·.seq)
+      gDigested := s.gDigested ++ oks
       gErrored := s.gErrored
-      gEmDropped := s.gEmDropped ++ errs.map (·.seq)
+      gEmDropped := s.gEmDropped ++ errs
       gExpired := s.gExpired }
 
 /-- the part of `ingest` before the auto-digest test -/
@@ -297,7 +298,7 @@ def keeps (cfg : Cfg) (now : Nat) (it : Item) : Bool := decide (((now : Int) - (
 def autophagy (cfg : Cfg) (s : State) : State × Obs :=
   let kept := s.queue.filter (keeps cfg s.clock)
   let gone := s.queue.filter (fun it => !keeps cfg s.clock it)
-  ({ s with queue := kept, expiredRet := s.expiredRet + gone.length, gExpired := s.gExpired ++ gone.map (·.seq) },
+  ({ s with queue := kept, expiredRet := s.expiredRet + gone.length, gExpired := s.gExpired ++ gone },
    .removed gone.length)
 
 inductive Op where
